@@ -930,6 +930,9 @@ class CompositeEnvelope:
             state_order.extend(product_state.state_objs)
             product_state.state_objs = []
         for so in target_state_objs:
+            # Already collected (e.g. as the partner in a combined envelope)
+            if any(so is x for x in state_order):
+                continue
             if (
                 hasattr(so, "envelope")
                 and so.envelope is not None
